@@ -356,10 +356,14 @@ def rand_argv(rng, cfg, profile):
         if d["kind"] == "toggle":
             l = bytes([d["letter"]]) if d["letter"] else b""
             form = rng.random()
-            if l and form < 0.4:
+            if l and form < 0.3:
                 rep = [b"-" + l] * k
-            elif l and form < 0.7:
+            elif l and form < 0.5:
                 rep = [b"-" + l * k]
+            elif l and form < 0.75:
+                # a declared letter followed by many repetitions of an undeclared one / of an option's letter
+                other = (und + ol) or ["9"]
+                rep = [b"-" + l + rng.choice(other).encode() * k]
             else:
                 rep = [b"--" + name] * k
         elif d["kind"] == "multi":
